@@ -547,6 +547,7 @@ def reported_means_failed(ctx: Context, rule_id: str = "R15l") -> None:
             success_index = len(rets[0].elts) - 1  # (did_fix, did_succeed)
         reported_paths = 0
         bad = None
+        unknown = None
         try:
             for path in enumerate_paths(cfg, loop_bound=1, budget=8000):
                 if path[-1][0] != cfg.exit:
@@ -584,14 +585,19 @@ def reported_means_failed(ctx: Context, rule_id: str = "R15l") -> None:
                 if returned is True:
                     bad = path
                     break
+                if returned is not False and unknown is None:
+                    unknown = path
         except PathBudgetExceeded:
             raise AnalysisError(f"{func.short}: too many paths")
         key = f"{func.short}: status after a reported error"
         if bad is not None:
             steps = [cfg.describe(nid) for nid, _ in bad if cfg.nodes[nid].kind in ("handler", "stmt")][-8:]
             rule.fail(key, where(func), f"a path through {func.short} reports an error for the file and then returns the success status: the failure cannot reach the exit code", steps)
+        elif unknown is not None:
+            steps = [cfg.describe(nid) for nid, _ in unknown if cfg.nodes[nid].kind in ("handler", "stmt")][-8:]
+            rule.fail(key, where(func), f"a path through {func.short} reports an error for the file and then returns a status that is not the constant 'failed' (the answer of a call, a value computed from options): whether the failure reaches the exit code depends on something other than the failure", steps)
         elif reported_paths:
-            rule.ok(key, f"{reported_paths} error-reporting path(s), none returns success")
+            rule.ok(key, f"{reported_paths} error-reporting path(s), all return the failure status")
         else:
             rule.fail(key, where(func), f"{func.short} no longer reports per-file errors")
 
@@ -708,6 +714,10 @@ def run(ctx: Context) -> None:
     # the per-run 'a file failed' flag accumulates: a later clean file cannot clear it
     c10.r10c(ctx)
     _relabel(ctx, "R15m")
+    from sa.rules import c14
+
+    # 'every other file is processed exactly as if the failing file were absent': a failure changes no dispatch list
+    c14.dispatch_lists_frozen(ctx, "R15p")
     if ctx.tier == "thorough":
         from sa.rules import driver_exploration
 
